@@ -359,6 +359,16 @@ def run_main(pid, tier, seed, replay=None):
     if replay:
         payload = json.load(open(replay))
         d = vk.workdir(f"replay_{pid}_{os.getpid()}")
+        if payload.get("history", {}).get("label") == "sched":
+            json.dump(payload["history"]["line"], open(f"{d}/line.json", "w"))
+            vk.run_harness(["nodeids-replay", "--file", f"{d}/line.json", "--out", f"{d}/r"])
+            viols, _, _, _ = vk.run_trace("TraceIds.tla", f"{d}/r.ndjson")
+            shutil.rmtree(d, ignore_errors=True)
+            if any(v["prop"] == pid for v in viols):
+                print(f"VIOLATION property={pid} replay={replay}")
+                return 1
+            vk.log("replay: no violation")
+            return 0
         hp = f"{d}/h.json"
         json.dump([payload["history"]], open(hp, "w"))
         vk.run_harness(["replay", "--hist", hp, "--threads", str(payload.get("threads", 1)), "--out", f"{d}/r"])
@@ -407,10 +417,20 @@ def run_main(pid, tier, seed, replay=None):
                      "--first", str(first)]
             jobs.append(dict(name=f"{name}_{j}", profile=name, threads=th[j % len(th)], args=a + tr.get("extra", [])))
             first += tr["count"] * tr.get("hist_per_count", 1) + 1
+    for x in P.get("extra_jobs", {}).get(tier, []):
+        jobs.append(dict(name=x["name"], profile=x["name"], threads=0, kind=x.get("kind"), module=x.get("module"), heap=x.get("heap", "3g"),
+                         args=x["args"] + ["--seed", str(seed)] + (["--thorough"] if tier == "thorough" else [])))
     results, d = vk.gen_and_validate(jobs, module=module, parallel=P.get("parallel", 8))
     hists_cache = {}
 
     def hist_of(r, hno):
+        if r["job"].get("kind") == "sched":
+            with open(r["prefix"] + ".ndjson") as f:
+                for ln in f:
+                    e = json.loads(ln)
+                    if e["n"] == hno:
+                        return dict(label="sched", indexes=[], ops=[], line=e)
+            return None
         key = r["prefix"]
         if key not in hists_cache:
             hists_cache[key] = json.load(open(key + ".hist.json"))
@@ -426,17 +446,39 @@ def run_main(pid, tier, seed, replay=None):
     # ---- 3. binding self-test on clean traces
     bad_by_trace = []
     for r in results:
+        if r["job"].get("kind") == "sched":
+            continue
         bad_h = {v["h"] for v in r["viols"]}
         bad_by_trace.append((r["prefix"] + ".ndjson", bad_h))
     st = selftest(P.get("selftest_as", pid), bad_by_trace, seed, module=module, count_as=pid, also=P.get("also"))
+    for r in results:
+        if r["job"].get("kind") == "sched":
+            # duplicate one returned id / drop a step in recorded schedules: both must be noticed
+            dd = vk.workdir(f"selftest_sched_{os.getpid()}")
+            lines = [json.loads(ln) for _, ln in zip(range(300), open(r["prefix"] + ".ndjson"))]
+            cand = [e for e in lines if len(e["rets"]) >= 2]
+            if cand:
+                e = copy.deepcopy(cand[len(cand) // 2])
+                e["rets"][1][1] = e["rets"][0][1]
+                e2 = copy.deepcopy(cand[0])
+                e2["steps"].pop(1)
+                open(f"{dd}/dup.ndjson", "w").write(json.dumps(e) + "\n" + json.dumps(e2) + "\n")
+                vv, dr, _, _ = vk.run_trace(r["job"]["module"], f"{dd}/dup.ndjson")
+                st["applicable"] += ["schedule_duplicate_id", "schedule_step_removed"]
+                (st["rejected"] if any(v["conj"] == "id_handed_out_twice" for v in vv) else st["missed"]).append("schedule_duplicate_id")
+                (st["rejected"] if dr else st["missed"]).append("schedule_step_removed")
+            shutil.rmtree(dd, ignore_errors=True)
     vk.log(f"[selftest] corruptions applicable={st['applicable']} rejected={st['rejected']} missed={st['missed']}")
 
     # ---- 4. samples and evidence
     samples = []
-    for r in results[:3]:
+    for r in [x for x in results if x["job"].get("kind") != "sched"][:3]:
         hs = json.load(open(r["prefix"] + ".hist.json"))
         if hs:
             samples.append(summarize_history(hs[min(1, len(hs) - 1)]))
+    for r in [x for x in results if x["job"].get("kind") == "sched"][:1]:
+        with open(r["prefix"] + ".ndjson") as f:
+            samples.append({"schedule": json.loads(f.readline())})
     with open(results[0]["prefix"] + ".ndjson") as f:
         for ln in f:
             e = json.loads(ln)
@@ -653,5 +695,25 @@ MAIN.update({
         also=lambda prop, conj: prop in ("C01", "C05", "C14") or (prop == "C03" and conj != "reported_distance_wrong"),
     ),
 })
+
+def mcn(tag, overrides=None, expect=False, timeout=900):
+    return dict(module="NodeIds.tla", cfg="MC_NodeIds.cfg", tag=tag, overrides=overrides or {}, expect_violation=expect, timeout=timeout)
+
+
+MAIN["C13"] = dict(
+    mc=dict(quick=[mcn("ids_2x3"), mcn("sens_non_atomic", {"Atomic": "FALSE", "MaxReq": "2"}, expect=True)],
+            thorough=[mcn("ids_2x3"), mcn("ids_3x3", {"Threads": "{1, 2, 3}", "MaxReq": "3"}, timeout=2400),
+                      mcn("sens_non_atomic", {"Atomic": "FALSE", "MaxReq": "2"}, expect=True)]),
+    traces=dict(quick=[dict(profile="parallel", jobs=6, count=30, threads=[2, 4, 8, 16, 3, 16])],
+                thorough=[dict(profile="parallel", jobs=12, count=400, threads=[2, 4, 8, 16, 3, 16])]),
+    extra_jobs=dict(quick=[dict(name="schedules", kind="sched", module="TraceIds.tla", heap="6g", args=["nodeids", "--budget", "20000"])],
+                    thorough=[dict(name="schedules", kind="sched", module="TraceIds.tla", heap="10g", args=["nodeids", "--budget", "150000"])]),
+    distinct=lambda results: dict(
+        n=sum(r["stats"]["histories"] for r in results if r["job"].get("kind") == "sched") + sum(r["stats"]["distinct_forests"] for r in results),
+        rule="one case per distinct interleaving of the atomic steps of ConcurrentNodeIds::next() executed on the real code (depth-first "
+             "enumeration, complete for the small configurations, seeded sampling beyond) plus one per distinct forest built in a 2-16 thread rayon pool"),
+    also=lambda prop, conj: prop == "C01",
+    selftest_as="C01", sample_event="Build",
+)
 
 PLANS = {pid: dict(run=run_main) for pid in MAIN}
